@@ -222,15 +222,11 @@ theorem runOperation_recording (ao : AliasOracle) (cfg : OpCfg) (s : St) (p : Pr
     (hp : s.playback = none) (hen : s.enabled = true) (hsk : cfg.params.skipped = false) (ha : s.active = none) :
     runOperation ao cfg s p =
       (finishRecording ao cfg (execOperationFunc (opened cfg s) p).1
-        (match (execOperationFunc (opened cfg s) p).2 with
-          | .out (.ret _) => some false
-          | .out (.exc _) => some true
-          | .interrupt _ => none)
+        (excFlagOf (execOperationFunc (opened cfg s) p).2)
         (tick (startRec cfg s)).2,
        (execOperationFunc (opened cfg s) p).2) := by
   unfold runOperation
   simp only [inPlaybackMode, hp, Option.isSome_none, Bool.false_eq_true, if_false, hen, Bool.not_true, hsk, ha, opened]
-  rfl
 
 /-- C04 + C05 + C09 for one recorded operation: the caller sees the twin's result, every body ran exactly as in the
 twin, the recording is finalised exactly once, the recorder is idle again. -/
@@ -249,10 +245,7 @@ theorem runOperation_recording_spec (ao : AliasOracle) (cfg : OpCfg) (s : St) (p
   have hrec := execOperationFunc_record (opened cfg s) p hsc.1
   have htr := exec_transparent p (opened cfg s) hsc.1
   have hfin := finishRecording_finalised ao cfg s.log s.nextId _
-    (match (execOperationFunc (opened cfg s) p).2 with
-          | .out (.ret _) => some false
-          | .out (.exc _) => some true
-          | .interrupt _ => none)
+    (excFlagOf (execOperationFunc (opened cfg s) p).2)
     (tick (startRec cfg s)).2
     (scope_execOperationFunc s.log s.nextId p (opened cfg s) hsc)
   obtain ⟨h1, h2, _⟩ := htr
